@@ -135,7 +135,11 @@ func (s *SingleTypeSubstitutionMangler[F, T]) subVal(t reflect.Type, mVal reflec
 		if !subPtr {
 			return mVal, false
 		}
-		return nElem.Addr(), true
+		// nElem is rarely addressable (a converted value, a fresh slice,
+		// map or pointer), so point a new pointer at it.
+		outPtr := reflect.New(t.Elem())
+		outPtr.Elem().Set(nElem)
+		return outPtr, true
 	case reflect.Map:
 		// we mangled the map type, and the map value we're converting back is non-nil
 		out := reflect.MakeMapWithSize(t, mVal.Len())
